@@ -138,3 +138,35 @@ func Diff(a, b string) string {
 	}
 	return "at " + strconv.Itoa(i) + ": …" + a[lo:ha] + "… vs …" + b[lo:hb] + "…"
 }
+
+var kindNames = map[string]bool{"msg": true, "relay": true, "generic": true, "sub": true, "clientid": true, "serverid": true, "iana": true, "iata": true,
+	"iaaddr": true, "oro": true, "elapsed": true, "relaymsg": true, "status": true, "userclass": true, "vendorclass": true, "vendoropts": true,
+	"interfaceid": true, "dns": true, "domainsearch": true, "iapd": true, "iaprefix": true, "refresh": true, "remoteid": true, "fqdn": true, "ntp": true,
+	"bootfileurl": true, "bootfileparam": true, "archtype": true, "nii": true, "clientlladdr": true, "dhcpv4msg": true, "4o6server": true, "4rd": true,
+	"4rdmap": true, "4rdnonmap": true, "relayport": true, "duid-llt": true, "duid-en": true, "duid-ll": true, "duid-uuid": true, "duid-opaque": true,
+	"ntp-srv": true, "ntp-mc": true, "ntp-fqdn": true}
+
+// KindAt names the node kind in whose text the first difference of two canonical
+// strings lies (last known "kind{" before the difference): a stable violation key.
+func KindAt(a, b string) string {
+	i := 0
+	for i < len(a) && i < len(b) && a[i] == b[i] {
+		i++
+	}
+	if i > len(a) {
+		i = len(a)
+	}
+	for k := i - 1; k >= 0; k-- {
+		if a[k] != '{' {
+			continue
+		}
+		s := k
+		for s > 0 && (a[s-1] >= 'a' && a[s-1] <= 'z' || a[s-1] >= '0' && a[s-1] <= '9' || a[s-1] == '-') {
+			s--
+		}
+		if kindNames[a[s:k]] {
+			return a[s:k]
+		}
+	}
+	return "top"
+}
